@@ -196,6 +196,7 @@ def run(ck, ctx):
                  build_kw=dict(tier=ck.tier, constraints=True, set_null=False, final=("shape",), final_modes=["sql", "hql", "bigquery", "mssql", "oracle", "redshift"]))]
     jobs += [dict(module="clauses", only_rules={"O-shape", "O-final"},
                   build_kw=dict(group=g, tier=ck.tier, final=("shape",), final_modes=["sql", OWNER[g]])) for g in GROUPS]
+    jobs += [dict(module="entities", only_rules={"O-final"}, build_kw=dict(tier=ck.tier))]      # incl. DROP TABLE: still a full table entry
     run_fragments(ck, ctx, jobs)
     ck.assumptions += ["json.dumps encodes dict / list / tuple / str / int / float / bool / None (CPython)",
                        "declined: `primary_key lists names of that table's columns` (value-level)",
